@@ -86,8 +86,10 @@ R5  speciation identities (T-ALG): for every member of ThrustMode the NO, NO2
     HONO (written out per species, or rows of a constant table walked by a
     loop; literals or named constants) sum to exactly 1; APU takes its three
     fractions at one thrust mode; SOx = SO2 + SO4 wherever both are set (a sum
-    of two terms, each the element kept under SO2 / SO4 or the very value
-    stored there - one local, or one call-free expression, used for both); in
+    of two terms, each the element kept under SO2 / SO4 - read from the map, or
+    from the staging map merged into it by one update that receives every store
+    of that species - or the very value stored there - one local, or one
+    call-free expression, used for both); in
     lto.py, wherever the NOx family is written (helper or producer), NO, NO2
     and HONO are the one stored NOx index times their own fraction of a
     NOx_speciation() result; BFFM2's NO / NO2 / HONO results are its returned
@@ -2882,6 +2884,7 @@ def rule_speciation(ctx):
     ctx.ob('C01-R5', gf, f'GSE NOx shares sum to {tot}', ok, 'exactly one' if ok else 'GSE NO + NO2 + HONO ≠ GSE NOx')
     for fn_, mp in ((gf, _amounts_map(ctx, gf, 'gse')), (prog.func(APU, 'get_APU_emissions'), _producer_names(ctx, prog.func(APU, 'get_APU_emissions'), record=False)[0])):
         kv_ = _keyed_values(prog, fn_, mp)
+        staging = set(_staging_maps(fn_.node, mp))
         s = kv_.get('SOx', [])
         ok, shown = False, None
         if len(s) == 1 and s[0][0] is not None:
@@ -2890,7 +2893,13 @@ def rule_speciation(ctx):
             # each of the two summands is the value kept under SO2 / SO4: a read of that element, or the very value
             # that was stored there (a local both the store and the sum use)
             def is_value_of(term, k):
-                if any(norm(x) == f'{mp}[Species.{k}]' for x in _stands_for(fn_.node, term)):
+                # a read of the element from the map itself, or from the staging map (one that is only filled element by
+                # element and merged into the map by one update - an inlined `mp.update(helper(…))`) that every store
+                # of this species goes to: the element read there is the one the map receives
+                homes = {norm(t_.value) for _v, st_ in kv_.get(k, []) for t_ in ast.walk(st_)
+                         if isinstance(t_, ast.Subscript) and isinstance(t_.ctx, ast.Store) and norm(t_.slice) == f'Species.{k}'}
+                staged = next(iter(homes)) if len(homes) == 1 and homes <= staging else None
+                if any(norm(x) in (f'{mp}[Species.{k}]', f'{staged}[Species.{k}]') for x in _stands_for(fn_.node, term)):
                     return True
                 vs = kv_.get(k, [])
                 if len(vs) != 1 or vs[0][0] is None or not _same_value(fn_.node, term, vs[0][0]):
